@@ -4,7 +4,7 @@
    (persistent = true: Bolt; false: local; eff_req false _ = NoReq: the local transport replays nothing), with full
    retention. For the local transport the "commit order" is the order of the fan-out critical sections and hs_cut
    the (ghost) position in it at which the subscriber was indexed. *)
-From Mercure Require Import Base Hub HubProofs4 HubProofs7.
+From Mercure Require Import Base Hub HubProofs4 HubProofs7 HubProofs8.
 
 (* while a subscriber is live and has not been cut off, it has been sent - after its replay - exactly the matching
    updates committed after its registration, each once, in commit order *)
@@ -24,6 +24,24 @@ Theorem C06_exactly_once :
   nth_error (h_subs st) i = Some s -> NoDup (h_committed st) -> NoDup (hs_sent s) /\ NoDup (hs_recvd s).
 Proof. exact exactly_once. Qed.
 Print Assumptions C06_exactly_once.
+
+(* ... and the committed ids are distinct whenever the published ids are (EVB = 2^40 is where the model's ids of
+   subscription events start; each subscriber's active=true / active=false event is dispatched at most once, crashes
+   included), so that exactly-once follows from the inputs alone *)
+Theorem C06_committed_distinct :
+  forall (mt : nat -> N -> bool) (cap : nat) (tracking persistent : bool) size reqs pubs sched,
+  NoDup (concat pubs) -> (forall u, In u (concat pubs) -> u < EVB) ->
+  NoDup (h_committed (w_st (wrun mt cap tracking (winit persistent size reqs pubs) sched))).
+Proof. exact committed_distinct. Qed.
+Print Assumptions C06_committed_distinct.
+
+Theorem C06_exactly_once_distinct_ids :
+  forall (mt : nat -> N -> bool) (cap : nat) (tracking persistent : bool) reqs pubs sched i s,
+  NoDup (concat pubs) -> (forall u, In u (concat pubs) -> u < EVB) ->
+  nth_error (h_subs (w_st (wrun mt cap tracking (winit persistent 0 reqs pubs) sched))) i = Some s ->
+  NoDup (hs_sent s) /\ NoDup (hs_recvd s).
+Proof. exact exactly_once_distinct. Qed.
+Print Assumptions C06_exactly_once_distinct_ids.
 
 (* the handler writes to the client, in order, what was placed in the subscriber's buffer (both transports) *)
 Theorem C06_fifo :
